@@ -271,7 +271,15 @@ def run_frozen(spec, rec, Integration, PhiManip, Numerics, tap):
         else:
             phi_in = phi0.copy()
         tags["layout"] = layout
-        ok, out = rec.noraise("driver-returns", lambda: f(phi_in, xx, T, **kw2), site=site, tags=tags)
+        # the alternative discretisation of the advection term (module switch use_delj_trick) conserves mass just the same
+        delj = (ci + spec["b"]) % 4 == 3
+        tags["delj"] = delj
+        old_delj = Integration.use_delj_trick
+        Integration.use_delj_trick = delj
+        try:
+            ok, out = rec.noraise("driver-returns", lambda: f(phi_in, xx, T, **kw2), site=site, tags=tags)
+        finally:
+            Integration.use_delj_trick = old_delj
         tap.subs[:] = []
         if not ok:
             continue
